@@ -310,6 +310,7 @@ func otherThan(all, missing []string) string {
 
 func ruleC07Extra(prog *Program, rep *Report) {
 	ruleEntryParity(prog, rep)
+	ruleArgParity(prog, rep)
 	ruleRestore(prog, rep)
 	ruleReturnAlias(prog, rep, "C07")
 	ruleBorrowedWrites(prog, rep)
@@ -413,4 +414,119 @@ func funcKey(fd *ast.FuncDecl) string {
 		}
 	}
 	return fd.Name.Name
+}
+
+// ruleArgParity: C-argparity. The sibling entries of a reusable type read their options from
+// `args ...any` with a type switch. What a given option type sets must not depend on the
+// entry: the clause for one case type assigns the same receiver fields, with the same
+// right-hand side text, in every entry of the group (a chan option turns Reuse off in Parse
+// and must do so in ParseReader).
+func ruleArgParity(prog *Program, rep *Report, scope ...string) {
+	rep.Rules = append(rep.Rules, "C-argparity: in the sibling entries of one reusable type the clause of the option type switch (over `args ...any`) for a given option type makes the same receiver field assignments (field and right-hand side text): an option means the same through the []byte entry and through the reader entry")
+	compared := 0
+	for _, g := range entryGroups {
+		if len(scope) > 0 {
+			in := false
+			for _, sc := range scope {
+				if sc == g.rel+"."+g.typ {
+					in = true
+				}
+			}
+			if !in {
+				continue
+			}
+		}
+		pk := prog.Pkg(g.rel)
+		if pk == nil {
+			continue
+		}
+		info := pk.TypesInfo
+		clauses := map[string]map[string][]string{} // entry -> case type -> sorted assignments
+		var pos = map[string]*ast.FuncDecl{}
+		for _, e := range g.entries {
+			fd, _ := prog.FuncDecl(Method(pk, g.typ, e))
+			if fd == nil || fd.Recv == nil || len(fd.Recv.List[0].Names) != 1 {
+				continue
+			}
+			pos[e] = fd
+			recv := info.Defs[fd.Recv.List[0].Names[0]]
+			ctx := &mustCtx{info: info, recv: recv}
+			ast.Inspect(fd.Body, func(n ast.Node) bool {
+				ts, ok := n.(*ast.TypeSwitchStmt)
+				if !ok {
+					return true
+				}
+				m := map[string][]string{}
+				for _, cl := range ts.Body.List {
+					cc := cl.(*ast.CaseClause)
+					if cc.List == nil {
+						continue
+					}
+					var names []string
+					for _, t := range cc.List {
+						names = append(names, types.ExprString(t))
+					}
+					var asg []string
+					for _, st := range cc.Body {
+						ast.Inspect(st, func(k ast.Node) bool {
+							if _, isLit := k.(*ast.FuncLit); isLit {
+								return false
+							}
+							if as, ok := k.(*ast.AssignStmt); ok && len(as.Lhs) == len(as.Rhs) {
+								for i, l := range as.Lhs {
+									if f := ctx.fieldPath(l); f != "" {
+										asg = append(asg, f+" = "+wsRe.ReplaceAllString(printNode(prog.Fset, as.Rhs[i]), " "))
+									}
+								}
+							}
+							return true
+						})
+					}
+					sort.Strings(asg)
+					m[strings.Join(names, ",")] = asg
+				}
+				if len(m) >= 2 && clauses[e] == nil {
+					clauses[e] = m
+				}
+				return true
+			})
+		}
+		if len(clauses) < 2 {
+			continue // no option switch in this group (writers)
+		}
+		ref := g.entries[0]
+		for _, e := range g.entries[1:] {
+			if clauses[ref] == nil || clauses[e] == nil {
+				continue
+			}
+			var types_ []string
+			for t := range clauses[ref] {
+				types_ = append(types_, t)
+			}
+			for t := range clauses[e] {
+				if _, ok := clauses[ref][t]; !ok {
+					types_ = append(types_, t)
+				}
+			}
+			sort.Strings(types_)
+			for _, t := range types_ {
+				a, aok := clauses[ref][t]
+				b, bok := clauses[e][t]
+				if !aok || !bok {
+					continue // an option only one entry accepts (io.Reader specific) is not a parity question
+				}
+				compared++
+				key := fmt.Sprintf("%s.%s:%s=%s:case %s", g.rel, g.typ, ref, e, t)
+				if strings.Join(a, " ; ") == strings.Join(b, " ; ") {
+					rep.Discharge("C-argparity", key, prog.Pos(pos[e].Pos()), strings.Join(a, " ; "))
+				} else {
+					rep.Violate(Finding{Rule: "C-argparity", Key: key, Pos: prog.Pos(pos[e].Pos()), Msg: fmt.Sprintf("the option type %s sets [%s] in %s but [%s] in %s: the same option behaves differently through the two entries", t, strings.Join(a, " ; "), ref, strings.Join(b, " ; "), e)})
+				}
+			}
+		}
+	}
+	rep.Eval(compared)
+	if compared < 4 {
+		rep.Errorf("C-argparity compared %d option clauses (floor 4): anchors did not resolve", compared)
+	}
 }
